@@ -95,88 +95,88 @@ Definition api_call (me : nat) (code : Z) (s : list Z) (d : drv) (w : world)
   let r0 {A} (pr : A -> list Z) (m : M A) (rest : list Z) :=
       let '(o, d', w') := outp pr (m d w) in Some (o, d', w', rest) in
   match code, s with
-  | 1, z :: t => r0 pr_unit (set_channel me z) t
-  | 2, t => r0 pr_z (get_channel me) t
-  | 3, z :: t => r0 pr_unit (set_data_rate me z) t
-  | 4, t => r0 pr_z (get_data_rate me) t
-  | 5, t => match take_pyval 4 t with Some (v, r) => r0 pr_unit (set_pa_level me v) r | None => None end
-  | 6, t => r0 pr_z (get_pa_level me) t
-  | 7, t => r0 pr_bool (get_is_lna_enabled me) t
-  | 8, z :: t => r0 pr_unit (set_crc me z) t
-  | 9, t => r0 pr_z (get_crc me) t
-  | 10, z :: t => r0 pr_unit (set_address_length me z) t
-  | 11, t => r0 pr_z (get_address_length me) t
-  | 12, z :: t => r0 pr_unit (set_ard me z) t
-  | 13, t => r0 pr_z (get_ard me) t
-  | 14, z :: t => r0 pr_unit (set_arc me z) t
-  | 15, t => r0 pr_z (get_arc me) t
-  | 16, a :: b :: t => r0 pr_unit (set_auto_retries me a b) t
-  | 17, t => r0 (fun p => [fst p; snd p]) (get_auto_retries me) t
-  | 18, t => match take_pyval 4 t with Some (v, r) => r0 pr_unit (set_auto_ack_attr me v) r | None => None end
-  | 19, t => r0 pr_z (get_auto_ack_attr me) t
-  | 20, b :: t => match take_optZ t with Some (p, r) => r0 pr_unit (set_auto_ack me (boolz b) p) r | None => None end
-  | 21, z :: t => r0 pr_bool (get_auto_ack me z) t
-  | 22, t => match take_pyval 4 t with Some (v, r) => r0 pr_unit (set_dynamic_payloads_attr me v) r | None => None end
-  | 23, t => r0 pr_z (get_dynamic_payloads_attr me) t
-  | 24, b :: t => match take_optZ t with Some (p, r) => r0 pr_unit (set_dynamic_payloads me (boolz b) p) r | None => None end
-  | 25, z :: t => r0 pr_bool (get_dynamic_payloads me z) t
-  | 26, t => match take_pyval 4 t with Some (v, r) => r0 pr_unit (set_payload_length_attr me v) r | None => None end
+  | 1, z :: t => r0 pr_unit (set_channel (WB me) z) t
+  | 2, t => r0 pr_z (get_channel (WB me)) t
+  | 3, z :: t => r0 pr_unit (set_data_rate (WB me) z) t
+  | 4, t => r0 pr_z (get_data_rate (WB me)) t
+  | 5, t => match take_pyval 4 t with Some (v, r) => r0 pr_unit (set_pa_level (WB me) v) r | None => None end
+  | 6, t => r0 pr_z (get_pa_level (WB me)) t
+  | 7, t => r0 pr_bool (get_is_lna_enabled (WB me)) t
+  | 8, z :: t => r0 pr_unit (set_crc (WB me) z) t
+  | 9, t => r0 pr_z (get_crc (WB me)) t
+  | 10, z :: t => r0 pr_unit (set_address_length (WB me) z) t
+  | 11, t => r0 pr_z (get_address_length (WB me)) t
+  | 12, z :: t => r0 pr_unit (set_ard (WB me) z) t
+  | 13, t => r0 pr_z (get_ard (WB me)) t
+  | 14, z :: t => r0 pr_unit (set_arc (WB me) z) t
+  | 15, t => r0 pr_z (get_arc (WB me)) t
+  | 16, a :: b :: t => r0 pr_unit (set_auto_retries (WB me) a b) t
+  | 17, t => r0 (fun p => [fst p; snd p]) (get_auto_retries (WB me)) t
+  | 18, t => match take_pyval 4 t with Some (v, r) => r0 pr_unit (set_auto_ack_attr (WB me) v) r | None => None end
+  | 19, t => r0 pr_z (get_auto_ack_attr (WB me)) t
+  | 20, b :: t => match take_optZ t with Some (p, r) => r0 pr_unit (set_auto_ack (WB me) (boolz b) p) r | None => None end
+  | 21, z :: t => r0 pr_bool (get_auto_ack (WB me) z) t
+  | 22, t => match take_pyval 4 t with Some (v, r) => r0 pr_unit (set_dynamic_payloads_attr (WB me) v) r | None => None end
+  | 23, t => r0 pr_z (get_dynamic_payloads_attr (WB me)) t
+  | 24, b :: t => match take_optZ t with Some (p, r) => r0 pr_unit (set_dynamic_payloads (WB me) (boolz b) p) r | None => None end
+  | 25, z :: t => r0 pr_bool (get_dynamic_payloads (WB me) z) t
+  | 26, t => match take_pyval 4 t with Some (v, r) => r0 pr_unit (set_payload_length_attr (WB me) v) r | None => None end
   | 27, t => r0 pr_z get_payload_length_attr t
-  | 28, z :: t => match take_optZ t with Some (p, r) => r0 pr_unit (set_payload_length me z p) r | None => None end
-  | 29, z :: t => r0 pr_z (get_payload_length me z) t
-  | 30, b :: t => r0 pr_unit (set_ack me (boolz b)) t
-  | 31, t => r0 pr_bool (get_ack me) t
-  | 32, b :: t => r0 pr_unit (set_allow_ask_no_ack me (boolz b)) t
-  | 33, t => r0 pr_bool (get_allow_ask_no_ack me) t
-  | 34, a :: b :: c :: t => r0 pr_unit (interrupt_config me (boolz a) (boolz b) (boolz c)) t
-  | 35, b :: t => r0 pr_unit (set_power me (boolz b)) t
-  | 36, t => r0 pr_bool (get_power me) t
-  | 37, b :: t => r0 pr_unit (set_listen me (boolz b)) t
-  | 38, t => r0 pr_bool (get_listen me) t
-  | 39, z :: t => match take_bytes t with Some (a, r) => r0 pr_unit (open_rx_pipe me z a) r | None => None end
-  | 40, z :: t => r0 pr_unit (close_rx_pipe me z) t
-  | 41, t => match take_bytes t with Some (a, r) => r0 pr_unit (open_tx_pipe me a) r | None => None end
+  | 28, z :: t => match take_optZ t with Some (p, r) => r0 pr_unit (set_payload_length (WB me) z p) r | None => None end
+  | 29, z :: t => r0 pr_z (get_payload_length (WB me) z) t
+  | 30, b :: t => r0 pr_unit (set_ack (WB me) (boolz b)) t
+  | 31, t => r0 pr_bool (get_ack (WB me)) t
+  | 32, b :: t => r0 pr_unit (set_allow_ask_no_ack (WB me) (boolz b)) t
+  | 33, t => r0 pr_bool (get_allow_ask_no_ack (WB me)) t
+  | 34, a :: b :: c :: t => r0 pr_unit (interrupt_config (WB me) (boolz a) (boolz b) (boolz c)) t
+  | 35, b :: t => r0 pr_unit (set_power (WB me) (boolz b)) t
+  | 36, t => r0 pr_bool (get_power (WB me)) t
+  | 37, b :: t => r0 pr_unit (set_listen (WB me) (boolz b)) t
+  | 38, t => r0 pr_bool (get_listen (WB me)) t
+  | 39, z :: t => match take_bytes t with Some (a, r) => r0 pr_unit (open_rx_pipe (WB me) z a) r | None => None end
+  | 40, z :: t => r0 pr_unit (close_rx_pipe (WB me) z) t
+  | 41, t => match take_bytes t with Some (a, r) => r0 pr_unit (open_tx_pipe (WB me) a) r | None => None end
   | 42, z :: t => r0 pr_bytes (address z) t
-  | 43, t => r0 pr_unit (enter me) t
-  | 44, t => r0 pr_unit (exit me) t
+  | 43, t => r0 pr_unit (enter (WB me)) t
+  | 44, t => r0 pr_unit (exit (WB me)) t
   | 45, t => match take_bytes t with
-             | Some (a, z :: r) => r0 pr_bool (load_ack me a z) r
+             | Some (a, z :: r) => r0 pr_bool (load_ack (WB me) a z) r
              | _ => None
              end
-  | 46, t => r0 pr_bool (update me) t
-  | 47, t => r0 pr_bool (available me) t
-  | 48, t => r0 pr_z (any me) t
-  | 49, t => match take_optZ t with Some (l, r) => r0 pr_optbytes (read me l) r | None => None end
+  | 46, t => r0 pr_bool (update (WB me)) t
+  | 47, t => r0 pr_bool (available (WB me)) t
+  | 48, t => r0 pr_z (any (WB me)) t
+  | 49, t => match take_optZ t with Some (l, r) => r0 pr_optbytes (read (WB me) l) r | None => None end
   | 50, t => r0 (fun o => match o with None => [0] | Some p => [1; Z.of_N p] end) pipe_attr t
   | 51, t => r0 pr_bool tx_full_attr t
   | 52, t => r0 pr_bool irq_dr t
   | 53, t => r0 pr_bool irq_ds t
   | 54, t => r0 pr_bool irq_df t
-  | 55, a :: b :: c :: t => r0 pr_unit (clear_status_flags me (boolz a) (boolz b) (boolz c)) t
+  | 55, a :: b :: c :: t => r0 pr_unit (clear_status_flags (WB me) (boolz a) (boolz b) (boolz c)) t
   | 56, a :: t => match take_optZ t with
-                  | Some (ce, r) => r0 pr_z (fifo me (boolz a) (option_map boolz ce)) r
+                  | Some (ce, r) => r0 pr_z (fifo (WB me) (boolz a) (option_map boolz ce)) r
                   | None => None
                   end
-  | 57, t => r0 pr_unit (flush_rx me) t
-  | 58, t => r0 pr_unit (flush_tx me) t
-  | 59, t => r0 pr_z (last_tx_arc me) t
+  | 57, t => r0 pr_unit (flush_rx (WB me)) t
+  | 58, t => r0 pr_unit (flush_tx (WB me)) t
+  | 59, t => r0 pr_z (last_tx_arc (WB me)) t
   | 60, t => match take_bytes t with
-             | Some (b, na :: wo :: r) => r0 pr_bool (write me b (boolz na) (boolz wo)) r
+             | Some (b, na :: wo :: r) => r0 pr_bool (write (WB me) b (boolz na) (boolz wo)) r
              | _ => None
              end
   | 61, t => match take_bytes t with
              | Some (b, na :: fr :: so :: r) =>
-               r0 pr_sendres (send me b (boolz na) (Z.to_nat fr) (boolz so) FUEL) r
+               r0 pr_sendres (send (WB me) b (boolz na) (Z.to_nat fr) (boolz so) FUEL) r
              | _ => None
              end
-  | 62, so :: t => r0 pr_sendres (resend me (boolz so) FUEL) t
+  | 62, so :: t => r0 pr_sendres (resend (WB me) (boolz so) FUEL) t
   | 63, n :: t =>
     (fix bufs (m : nat) (s : list Z) (acc : list (list N)) :=
        match m with
        | O => match s with
               | na :: fr :: so :: r =>
                 r0 (fun l => Z.of_nat (length l) :: flat_map pr_sendres l)
-                   (send_list me (rev acc) (boolz na) (Z.to_nat fr) (boolz so) FUEL) r
+                   (send_list (WB me) (rev acc) (boolz na) (Z.to_nat fr) (boolz so) FUEL) r
               | _ => None
               end
        | S m' => match take_bytes s with
@@ -184,7 +184,7 @@ Definition api_call (me : nat) (code : Z) (s : list Z) (d : drv) (w : world)
                  | None => None
                  end
        end) (Z.to_nat n) t []
-  | 64, t => r0 pr_bool (rpd me) t
+  | 64, t => r0 pr_bool (rpd (WB me)) t
   | _, _ => None
   end.
 
@@ -249,7 +249,7 @@ Fixpoint construct_all (objs : list nat) (w : world) : list (nat * drv) * world 
   match objs with
   | [] => ([], w, [])
   | me :: t =>
-    let '(o, d, w1) := outp pr_unit (construct me init_drv w) in
+    let '(o, d, w1) := outp pr_unit (construct (WB me) init_drv w) in
     let '(rest, w2, outs) := construct_all t w1 in
     ((me, d) :: rest, w2, o ++ outs)
   end.
